@@ -10,6 +10,7 @@ Line protocol (one world — scenario process + backup file — is threaded thro
   reqq <name> <pt> <vals> <ncalls>         -> same, with the digest `n=<len db> cur=<n> calls=<n>` instead of the state
   finish                                   -> state      end of `execute` (last export)
   crashload                                -> state      the process dies; a new one loads the file
+  crashstale                               -> state      (outside the property) a new process keeps the file, loads nothing
   trunc <k>                                -> read=<db>  replay of the event trace of the current process
                                                          truncated inside its k-th Call, file read back
   opt <obj> <c:eq|ineq,..|-> <tolEq> <tolIneq> -> idx=<i|_> feas=<0|1>   optimum reported on the database
@@ -98,6 +99,9 @@ def stepLine (w : World) (line : String) : World × String :=
     match restart id w.s.h with
     | some s' => ({ w with s := s', n0 := 0, h0 := s'.h, trace := [] }, showSt s')
     | none => (w, "E")
+  | ["crashstale"] =>
+    let s' := restartStale w.s.h
+    ({ w with s := s', n0 := 0, h0 := s'.h, trace := [] }, showSt s')
   | ["trunc", k] =>
     match k.toNat? with
     | some k => (w, "read=" ++ showRead (replay id w.h0 (truncateAtCall k w.trace)).file)
